@@ -1,0 +1,5 @@
+//go:build !verif
+
+package mpx
+
+func (s *channelState) verifDirty() int64 { return 0 }
